@@ -772,6 +772,16 @@ func (g *G) genOriginVar(t string) {
 		}
 		if !g.P.Safe && g.chance(0.1) {
 			vi.Known = false // metadata absent from the store
+			if g.chance(0.5) {
+				// ... but present under other spellings of the key: keys are exact
+				if g.In.Meta[acc] == nil {
+					g.In.Meta[acc] = map[string]string{}
+				}
+				if _, exact := g.In.Meta[acc][key]; !exact {
+					g.In.Meta[acc][strings.ToUpper(key)] = vi.Value
+					g.In.Meta[acc][strings.ToUpper(key[:1])+key[1:]] = vi.Value + "9"
+				}
+			}
 		} else {
 			if g.In.Meta[acc] == nil {
 				g.In.Meta[acc] = map[string]string{}
@@ -896,11 +906,20 @@ func Generate(r *rand.Rand, p Profile) *G {
 		st := g.genStmt()
 		g.Prog.Stmts = append(g.Prog.Stmts, st)
 	}
+	if len(g.Prog.Vars) > 0 && len(g.Prog.Stmts) > 0 && g.chance(0.1) {
+		// the name of a declared variable inside a comment and inside a string literal: text, not a use
+		name := g.Prog.Vars[g.R.IntN(len(g.Prog.Vars))].Name
+		if g.chance(0.5) {
+			g.Prog.Stmts[g.R.IntN(len(g.Prog.Stmts))].Comment = "pays $" + name + " its share ($" + name + ")"
+		} else {
+			g.Prog.Stmts = append(g.Prog.Stmts, Stmt{K: "call", Fn: "set_tx_meta", Args: []Expr{*Str("note"), *Str("for $" + name + " only")}})
+		}
+	}
 	if g.chance(p.PComment) || g.chance(0.05) {
 		g.Prog.Trailer = g.pick([]string{"// end", "// fin du script", "/* done */", "// "})
 	}
 	if g.chance(p.PCompact) {
-		g.Prog.Style = 1 + g.R.IntN(2)
+		g.Prog.Style = 1 + g.R.IntN(3)
 		g.Prog.Trailer = ""
 		for i := range g.Prog.Stmts {
 			g.Prog.Stmts[i].Comment = "" // line comments need their own line
